@@ -262,6 +262,7 @@ func main() {
 					err := processor.ReloadSubnets()
 					if err != nil {
 						log.Errorf("failed to reload phantom subnets - aborting reload: %v", err)
+						continue
 					}
 					if !dnsOnly && apiRegServer != nil {
 						apiRegServer.NewClientConf(conf.latestClientConf)
